@@ -191,6 +191,14 @@ func runC11(b *runner.Batch) {
 				run(e.opRegisterTLD(tld, 50000), users, c, a, m, "tld-caller")
 			}
 		case "register":
+			if e.registrar != nil && r.IntN(8) == 0 {
+				// the owner-to-be is a deployed contract with a payment callback that accepts everything; it neither
+				// calls nor signs, so nobody witnesses for it (seeded change C11-8: "a contract consents in its callback")
+				who := []int{r.IntN(3)}
+				committee := r.IntN(3) == 0
+				run(e.opRegister(name, e.registrar, 1500+int64(r.IntN(4000))), who, committee, false, false, "for-a-contract-that-does-not-ask")
+				continue
+			}
 			newOwner := r.IntN(3)
 			// signer classes for registration: new owner (+ parent controller), or not
 			users := []int{newOwner}
